@@ -106,7 +106,7 @@ def check(ctx, replay=None):
         cov["evaluations"] += s["probes"]
         cov["distinct_nontrivial"] += s["distinct_nontrivial"]
         cov["traces_validated_against_impl"] += s["children"]
-        cov.setdefault("kernel_replays", []).append({k: s[k] for k in ("scope", "cases", "children", "probes", "fatal_probes", "skipped_children", "inconclusive_children", "failed_loads_not_judged", "children_with_a_prior_policy")})
+        cov.setdefault("kernel_replays", []).append({k: s[k] for k in ("scope", "cases", "children", "probes", "fatal_probes", "skipped_children", "inconclusive_children", "failed_loads_not_judged", "children_with_a_prior_policy", "children_with_a_divergent_thread")})
         if s["skipped_children"] > s["children"] // 4:
             raise vlib.Machinery("%d of %d children could not be run" % (s["skipped_children"], s["children"]))
         for x in s["samples"] or []:
